@@ -258,7 +258,22 @@ def parse_output(text):
             cur.append(step)
         elif c == "o" and step is not None:
             t = line.split()
+            if len(t) < 2:
+                continue
             tag = t[1]
+            try:
+                parse_obs(step, tag, t)
+            except (ValueError, IndexError):
+                step.obs["truncated"] = tag      # the child was killed while printing this line (the x line that follows says why)
+        elif c == "x" and step is not None:
+            t = line.split(None, 2)
+            step.exc = (t[1], t[2] if len(t) > 2 else "")
+    return cases
+
+
+def parse_obs(step, tag, t):
+    if True:
+        if True:
             if tag == "meta":
                 step.obs["meta"] = dict(x.split("=", 1) for x in t[2:])
             elif tag in ("limits", "conformal", "pidx", "nidx", "apipidx", "apinidx", "polyi", "polyq", "hsp_pntr", "hsp_indx", "inside", "estaniso", "tensors", "utensors", "numpoints"):
@@ -267,10 +282,6 @@ def parse_output(text):
                 step.obs[tag] = (int(t[2]), t[3])
             else:
                 step.obs[tag] = [fl(v) for v in t[3:]]
-        elif c == "x" and step is not None:
-            t = line.split(None, 2)
-            step.exc = (t[1], t[2] if len(t) > 2 else "")
-    return cases
 
 
 def run_scripts(drv, lines, workdir, name="script", timeout=900, env=None, case_timeout=10):
